@@ -61,6 +61,9 @@ def run(repo, rep):
                      'in scenario [%s] a layout exists in which the comment %s is followed on the same line by %s: "%s" - the text '
                      'after it becomes part of the comment' % (pr.fact_text()[:160], D.show(c), D.show(nxt), S.show_seq(seq)[:300]))
     rep.floor('C09.c', n, 60)
+    # the forced break that follows a comment survives normalisation: normalisation preserves what a document denotes (document model)
+    from . import docmodel
+    rep.floor('C09.c:normalisation', docmodel.run(repo, rep, {'normalisation': 'C09.c'}), 1)
 
     # ---------------------------------------------------------------- C09.e (and C03.b): flat/broken agreement
     n = 0
